@@ -42,18 +42,18 @@ def _texts(rnd: Any, n: int) -> list[str]:
 def build_history(rnd: Any, max_ops: int, with_update: bool = True, big: bool = False) -> dict:
     lf = rnd.choice(LFS[:5] if not big else LFS)
     base = lf if lf <= 10 else 4
-    n0 = rnd.randint(0, 12 * base) if rnd.random() < 0.8 else rnd.randint(0, 3)
+    n0 = rnd.randint(0, 12 * base) if rnd.randint(0, 99) < 80 else rnd.randint(0, 3)
     case = {'lf': lf, 'init': _texts(rnd, n0), 'ops': []}
     nops = rnd.randint(1, max_ops)
     for _ in range(nops):
-        r = rnd.random()
+        r = (rnd.randint(0, 99) / 100)
         sizes = [0, 1, 1, 2, base, base + 1, 2 * base, 3 * base]
-        if lf == 1000 and rnd.random() < 0.2:
+        if lf == 1000 and rnd.randint(0, 99) < 20:
             sizes = [1001, 1600, 2100]
         k = rnd.choice(sizes)
         if r < 0.30:
-            op = {'op': 'splice', 'a': rnd.randint(0, 200), 'b': rnd.randint(0, 200) if rnd.random() < 0.7 else 0, 'new': _texts(rnd, k)}
-            if rnd.random() < 0.3:  # long span: whole blocks
+            op = {'op': 'splice', 'a': rnd.randint(0, 200), 'b': rnd.randint(0, 200) if rnd.randint(0, 99) < 70 else 0, 'new': _texts(rnd, k)}
+            if rnd.randint(0, 99) < 30:  # long span: whole blocks
                 op['b'] = rnd.randint(base, 6 * base)
         elif r < 0.42:
             op = {'op': 'insert_after', 'ref': rnd.randint(-1, 200), 'new': _texts(rnd, k)}
@@ -68,7 +68,7 @@ def build_history(rnd: Any, max_ops: int, with_update: bool = True, big: bool = 
         elif r < 0.91:
             op = {'op': 'permute', 'a': rnd.randint(0, 200), 'b': rnd.randint(0, 2 * base), 'rot': rnd.randint(1, 5)}
         elif r < 0.96:
-            op = {'op': 'foreign', 'a': rnd.randint(0, 200), 'b': rnd.randint(0, 4), 'k': rnd.randint(0, 200), 'same_shape': rnd.random() < 0.6}
+            op = {'op': 'foreign', 'a': rnd.randint(0, 200), 'b': rnd.randint(0, 4), 'k': rnd.randint(0, 200), 'same_shape': rnd.randint(0, 99) < 60}
         else:
             op = {'op': 'dup', 'a': rnd.randint(0, 200), 'b': rnd.randint(0, 4), 't': rnd.randint(0, 200)}
         case['ops'].append(op)
